@@ -202,7 +202,7 @@ pub fn check(c: &Case, obs: &mut Obs) -> Verdict {
             return Verdict::fail(format!("{name}: {} transactions read, {} written", got.len(), want.len()));
         }
         for (g, w) in got.iter().zip(want.iter()) {
-            if g.ticker != w.ticker.to_uppercase() {
+            if !g.ticker.eq_ignore_ascii_case(&w.ticker) {
                 return Verdict::fail(format!("{name}: ticker read as '{}', expected '{}'", g.ticker, w.ticker.to_uppercase()));
             }
         }
